@@ -32,6 +32,11 @@ CLAIMS = {
    "Necessary structure of the property decided on every run: the lock descriptor is opened and flock'ed (exclusive, non-blocking) before anything else and `main` is the only top-level command; `current` is written only in handle_success, which is called only on the success branch of the compiler invocation; the rename of `next` precedes the link switch and the link targets $POLICY; the next number is max(POLICY file, link)+1. It does not decide the semantic outcome at each kill point, flock semantics or the arithmetic on strings read at run time.",
    "Trusted: bash's parser/pretty-printer; documented semantics of rm/ln/mv/flock. Non-shell scripts under bin/ are listed as not analysed.",
    "DESIGN.md section 4 C19, E8"),
+ "C13": ("other",
+   "def-use and dominance analysis on go/ssa of both sides of the status file: constants with the polarity of the writer's bool parameter vs. the reader's switch cases and what each case feeds into the device-policy variable; must-pass (post-dominance) search in do-approve",
+   "Decides the structural core: writer and reader agree on every status constant and its meaning (success accepted with its policy, failure not accepted, UPTODATE accepted, DIFF lists, sticky DIFF with the approved-since exception, compare consulted only when later than the accepted approve); the reader cannot abort and lists the zero value; all parts (code, ipv6, raw, bz2) are compared; in do-approve every path after the session updates the status and writes END:, and FAILED/return 1 derive exactly from the session result. Not decided: sufficiency of the two-slot encoding over all histories.",
+   "Trusted: go/ssa; shared struct type makes field names agree. Histories, clocks and file removal are runtime matters.",
+   "DESIGN.md section 4 C13"),
 }
 
 NOT_APPLICABLE = {
